@@ -19,6 +19,7 @@
 package cstate
 
 import (
+	"encoding/binary"
 	"fmt"
 	"math/big"
 
@@ -27,6 +28,7 @@ import (
 	"github.com/kardiachain/go-kardia/mainchain/genesis"
 
 	"github.com/kardiachain/go-kardia/lib/common"
+	"github.com/kardiachain/go-kardia/lib/crypto"
 	"github.com/kardiachain/go-kardia/lib/log"
 	"github.com/kardiachain/go-kardia/lib/metrics"
 
@@ -91,10 +93,12 @@ func saveState(db kaidb.KeyValueStore, state LatestBlockState) {
 	if state.LastBlockHeight == 0 {
 		sp.LastValidatorsInfoHash = saveValidatorsInfo(batch, state.LastHeightValidatorsChanged, state.LastValidators).Bytes()
 		sp.ValidatorsInfoHash = saveValidatorsInfo(batch, state.LastHeightValidatorsChanged, state.Validators).Bytes()
+		saveValidatorsInfoAt(batch, state.LastBlockHeight+1, state.LastHeightValidatorsChanged, state.Validators)
 	}
 
 	// write next validators
 	sp.NextValidatorsInfoHash = saveValidatorsInfo(batch, state.LastHeightValidatorsChanged, state.NextValidators).Bytes()
+	saveValidatorsInfoAt(batch, state.LastBlockHeight+2, state.LastHeightValidatorsChanged, state.NextValidators)
 
 	// write consensus params
 	sp.ConsensusParamsInfoHash = saveConsensusParamsInfo(batch, state.LastHeightConsensusParamsChanged, state.ConsensusParams).Bytes()
@@ -120,10 +124,12 @@ func (s *dbStore) PruneState(from, to uint64) (uint64, uint64, uint64) {
 	var prunedBytes uint64 = 0
 
 	valInfosCache := make(map[common.Hash]struct{}, 0) // map of val info hash -> last height validator changed
+	valInfosAt := make(map[uint64]common.Hash)         // pruned height -> hash of the validator set of that height
 	for i := from; i < to; i++ {
 		if state := rawdb.ReadConsensusStateHeight(s.db, i); state != nil {
 			valInfoHash := common.BytesToHash(state.LastValidatorsInfoHash)
 			valInfosCache[valInfoHash] = struct{}{}
+			valInfosAt[i] = valInfoHash
 			bz, _ := state.Marshal()
 			if err := rawdb.DeleteConsensusStateHeight(s.db, i); err != nil {
 				log.Error("Failed to prune consensus state", "height", i)
@@ -148,6 +154,13 @@ func (s *dbStore) PruneState(from, to uint64) (uint64, uint64, uint64) {
 		delete(valInfosCache, common.BytesToHash(nextState.LastValidatorsInfoHash))
 		delete(valInfosCache, common.BytesToHash(nextState.ValidatorsInfoHash))
 		delete(valInfosCache, common.BytesToHash(nextState.NextValidatorsInfoHash))
+	}
+
+	// the per-height record of the set of height i serves the states i-2 (next), i-1 (current) and i (last)
+	for i, valInfoHash := range valInfosAt {
+		if (i < 2 || rawdb.ReadConsensusStateHeight(s.db, i-2) == nil) && rawdb.ReadConsensusStateHeight(s.db, i-1) == nil {
+			_ = rawdb.DeleteConsensusValidatorsInfo(s.db, valInfoKeyAt(valInfoHash, i))
+		}
 	}
 
 	// delete val infos
@@ -203,7 +216,7 @@ func loadStateAtHeight(db kaidb.Database, height uint64) *LatestBlockState {
 	appHash := rawdb.ReadAppHash(db, height)
 	state.AppHash = appHash
 
-	lValsInfo := rawdb.ReadConsensusValidatorsInfo(db, common.BytesToHash(sp.LastValidatorsInfoHash))
+	lValsInfo := readValidatorsInfoAt(db, common.BytesToHash(sp.LastValidatorsInfoHash), height)
 	if state.LastBlockHeight > 0 {
 		state.LastValidators, err = types.ValidatorSetFromProto(lValsInfo.ValidatorSet)
 		if err != nil {
@@ -211,13 +224,13 @@ func loadStateAtHeight(db kaidb.Database, height uint64) *LatestBlockState {
 		}
 	}
 
-	valsInfo := rawdb.ReadConsensusValidatorsInfo(db, common.BytesToHash(sp.ValidatorsInfoHash))
+	valsInfo := readValidatorsInfoAt(db, common.BytesToHash(sp.ValidatorsInfoHash), height+1)
 	state.Validators, err = types.ValidatorSetFromProto(valsInfo.ValidatorSet)
 	if err != nil {
 		panic(err)
 	}
 
-	nValsInfo := rawdb.ReadConsensusValidatorsInfo(db, common.BytesToHash(sp.NextValidatorsInfoHash))
+	nValsInfo := readValidatorsInfoAt(db, common.BytesToHash(sp.NextValidatorsInfoHash), height+2)
 	state.NextValidators, err = types.ValidatorSetFromProto(nValsInfo.ValidatorSet)
 	if err != nil {
 		panic(err)
@@ -242,7 +255,7 @@ func (s *dbStore) LoadValidators(height uint64) (*types.ValidatorSet, error) {
 		return nil, ErrNoConsensusStateForHeight{height}
 	}
 
-	valInfo := rawdb.ReadConsensusValidatorsInfo(s.db, common.BytesToHash(cstate.LastValidatorsInfoHash))
+	valInfo := readValidatorsInfoAt(s.db, common.BytesToHash(cstate.LastValidatorsInfoHash), height)
 	if valInfo == nil {
 		return nil, ErrNoValSetForHeight{height}
 	}
@@ -275,6 +288,35 @@ func saveValidatorsInfo(db kaidb.KeyValueWriter, lastHeightChanged uint64, valSe
 
 	rawdb.WriteConsensusValidatorsInfo(db, hash, valInfo)
 	return hash
+}
+
+// valInfoKeyAt is the key of the record of THE validator set of one height: members, powers, every
+// ProposerPriority and the proposer as they are at that height.  ValidatorSet.Hash() covers address and power
+// only, so the sets of consecutive heights share it and the record stored under the hash alone holds whichever
+// of them was saved last.  The per-height state record keeps referring to the sets by that hash; together with
+// the height (last = h, current = h+1, next = h+2 for the state of height h) it identifies one set exactly.
+func valInfoKeyAt(hash common.Hash, height uint64) common.Hash {
+	var h [8]byte
+	binary.BigEndian.PutUint64(h[:], height)
+	return crypto.Keccak256Hash(hash.Bytes(), h[:])
+}
+
+func saveValidatorsInfoAt(db kaidb.KeyValueWriter, height, lastHeightChanged uint64, valSet *types.ValidatorSet) {
+	pv, err := valSet.ToProto()
+	if err != nil {
+		panic(err)
+	}
+	rawdb.WriteConsensusValidatorsInfo(db, valInfoKeyAt(valSet.Hash(), height),
+		kstate.ValidatorsInfo{ValidatorSet: pv, LastHeightChanged: lastHeightChanged})
+}
+
+// readValidatorsInfoAt prefers the record of exactly that height; a database written before those records
+// existed still resolves through the record stored under the hash alone.
+func readValidatorsInfoAt(db kaidb.Reader, hash common.Hash, height uint64) *kstate.ValidatorsInfo {
+	if vi := rawdb.ReadConsensusValidatorsInfo(db, valInfoKeyAt(hash, height)); vi != nil {
+		return vi
+	}
+	return rawdb.ReadConsensusValidatorsInfo(db, hash)
 }
 
 // LoadConsensusParams loads the ConsensusParams for a given height.
